@@ -1285,6 +1285,12 @@ void
 BitArrayT<NC_>::set() noexcept {
 	for (uint8_t& unit : _storage)
 		unit = UINT8_MAX;
+
+	// keep the padding bits of the last unit clear, empty() looks at whole units
+	constexpr Index TAIL_BITS = CAPACITY % 8;
+
+	if (TAIL_BITS != 0)
+		_storage[UNIT_COUNT - 1] = static_cast<uint8_t>((1u << TAIL_BITS) - 1);
 }
 
 template <unsigned NC_>
